@@ -1569,17 +1569,24 @@ func (s *lvalByFun) Less(i, j int) bool {
 	a, b := s.cells[i], s.cells[j]
 	// Functions are always copied when being invoked. But the arguments
 	// are not copied in general.
-	var expr *LVal
-	if s.keyfun == nil {
-		expr = SExpr([]*LVal{s.fun, a.Copy(), b.Copy()})
-	} else {
-		expr = SExpr([]*LVal{
-			s.fun,
-			SExpr([]*LVal{s.keyfun, a.Copy()}),
-			SExpr([]*LVal{s.keyfun, b.Copy()}),
-		})
+	// The predicate and the key function are CALLED on the elements as values
+	// (as map/select/foldl do).  Evaluating the form (less (key a) (key b))
+	// evaluated each element a second time, so a list of symbols or of lists
+	// could not be sorted.
+	ka, kb := a.Copy(), b.Copy()
+	if s.keyfun != nil {
+		ka = s.env.FunCall(s.keyfun, SExpr([]*LVal{ka}))
+		if ka.Type == LError {
+			s.err = ka
+			return false
+		}
+		kb = s.env.FunCall(s.keyfun, SExpr([]*LVal{kb}))
+		if kb.Type == LError {
+			s.err = kb
+			return false
+		}
 	}
-	ok := s.env.Eval(expr)
+	ok := s.env.FunCall(s.fun, SExpr([]*LVal{ka, kb}))
 	if ok.Type == LError {
 		s.err = ok
 		return false
@@ -1648,23 +1655,22 @@ func builtinInsertSorted(env *LEnv, args *LVal) *LVal {
 	sortErr := Nil()
 	inCells := seqCells(list)
 	i := sort.Search(len(inCells), func(i int) bool {
-		var expr *LVal
-		if keyFun == nil {
-			expr = SExpr([]*LVal{p, item.Copy(), inCells[i].Copy()})
-		} else {
-			expr = SExpr([]*LVal{
-				p,
-				SExpr([]*LVal{
-					keyFun,
-					item.Copy(),
-				}),
-				SExpr([]*LVal{
-					keyFun,
-					inCells[i].Copy(),
-				}),
-			})
+		// Call the predicate and the key function on the values; see
+		// lvalByFun.Less.
+		ka, kb := item.Copy(), inCells[i].Copy()
+		if keyFun != nil {
+			ka = env.FunCall(keyFun, SExpr([]*LVal{ka}))
+			if ka.Type == LError {
+				sortErr = ka
+				return false
+			}
+			kb = env.FunCall(keyFun, SExpr([]*LVal{kb}))
+			if kb.Type == LError {
+				sortErr = kb
+				return false
+			}
 		}
-		ok := env.Eval(expr)
+		ok := env.FunCall(p, SExpr([]*LVal{ka, kb}))
 		if ok.Type == LError {
 			sortErr = ok
 			return false
